@@ -131,7 +131,7 @@ func newCtxEnd(r *fw.Run, transport string) (*ctxEnd, error) {
 		e.rw = varlink.VerifConnOf(conn)
 		peer := e.peer
 		e.libClose = func() { conn.Close() }
-		e.closers = append(e.closers, func() { peer.Close(); conn.Close() })
+		e.closers = append(e.closers, func() { peer.Close(); conn.Close(); conn.Close() })
 	default:
 		return nil, fmt.Errorf("unknown transport %q", transport)
 	}
@@ -385,6 +385,8 @@ func c18ClientSide(r *fw.Run, srv *RawServer, c *c18UpCase, id string) {
 		r.Inconclusive("connect: %v", err)
 		return
 	}
+	// closed twice, as by a caller that defers Close and also closes explicitly
+	defer conn.Close()
 	defer conn.Close()
 	recv, err := conn.Upgrade(ctx, "org.example.upgrade.Up", map[string]string{"id": id})
 	if err != nil {
@@ -415,6 +417,91 @@ func c18ClientSide(r *fw.Run, srv *RawServer, c *c18UpCase, id string) {
 	}
 	r.Count("client_side_upgrades", 1)
 	r.Count("bytes_checked", int64(len(got)))
+}
+
+// c18BothEnds: real client Connections (Upgrade) against a real Service (handler reads Call.Conn), several at a time
+// on one service, each client closing its Connection twice (a deferred and an explicit Close). Every handler must get
+// exactly its own client's payload, every client the handler's DONE line.
+func c18BothEnds(r *fw.Run, g *Rig, d *upgradeDisp, tr string, round, nconn int, rng *rand.Rand) {
+	type one struct {
+		id      string
+		payload []byte
+		sizes   []int
+	}
+	var cs []one
+	for i := 0; i < nconn; i++ {
+		id := fmt.Sprintf("b%s%d.%d", tr, round, i)
+		cs = append(cs, one{id, []byte(fmt.Sprintf("payload-of-%s:", id) + string(genStream(rng, 1+rng.Intn(300)))), [][]int{{16}, {1}, {4096}, {7, 4095}}[rng.Intn(4)]})
+		d.mu.Lock()
+		d.done[id] = make(chan struct{})
+		d.mu.Unlock()
+	}
+	cse := map[string]interface{}{"what": "client Upgrade against a real service, connections in parallel, each closed twice", "transport": tr, "connections": nconn}
+	var wg sync.WaitGroup
+	for _, c := range cs {
+		wg.Add(1)
+		go func(c one) {
+			defer wg.Done()
+			ctx, cancel := context.WithTimeout(context.Background(), 20*time.Second)
+			defer cancel()
+			addr := "unix:" + g.Dial
+			if g.Net == "tcp" {
+				addr = "tcp:" + g.Dial
+			}
+			conn, err := varlink.NewConnection(ctx, addr)
+			if err != nil {
+				r.Inconclusive("both-ends: connect: %v", err)
+				return
+			}
+			defer conn.Close()
+			recv, err := conn.Upgrade(ctx, "org.example.upgrade.Up", map[string]interface{}{"id": c.id, "sizes": c.sizes, "want": len(c.payload)})
+			if err != nil {
+				r.Violation("C18 upgrade-failed", fmt.Sprintf("%s: Upgrade: %v", c.id, err), cse)
+				return
+			}
+			var out json.RawMessage
+			_, rw, err := recv(ctx, &out)
+			if err != nil || rw == nil {
+				r.Violation("C18 upgrade-failed", fmt.Sprintf("%s: receive after Upgrade: %v", c.id, err), cse)
+				return
+			}
+			if _, err := rw.Write(ctx, c.payload); err != nil {
+				r.Violation("C18 upgrade-failed", fmt.Sprintf("%s: write on the upgraded connection: %v", c.id, err), cse)
+				return
+			}
+			line, err := rw.ReadBytes(ctx, '\n')
+			if err != nil || string(line) != "DONE\n" {
+				r.Violation("C18 upgraded-bytes-lost", fmt.Sprintf("%s: the handler writes DONE\\n on the upgraded connection once it has its payload; the client read %q, %v", c.id, clip(string(line), 60), err), cse)
+			}
+			conn.Close() // explicit, the deferred one follows
+		}(c)
+	}
+	waited := make(chan struct{})
+	go func() { wg.Wait(); close(waited) }()
+	select {
+	case <-waited:
+	case <-time.After(60 * time.Second):
+		r.Violation("C18 operation-hangs", fmt.Sprintf("%d clients in parallel: 60 s after they began (their contexts ended after 20 s) not all of them have returned from Upgrade / receive / raw I/O / Close", nconn), cse)
+		return
+	}
+	for _, c := range cs {
+		d.mu.Lock()
+		ch := d.done[c.id]
+		d.mu.Unlock()
+		select {
+		case <-ch:
+		case <-time.After(5 * time.Second):
+		}
+		d.mu.Lock()
+		got := d.got[c.id]
+		delete(d.got, c.id)
+		delete(d.done, c.id)
+		d.mu.Unlock()
+		if !bytes.Equal(got, c.payload) {
+			r.Violation("C18 upgraded-bytes-lost", fmt.Sprintf("%s (%d connections in parallel): the client wrote %q on its upgraded connection; its handler's raw reads returned %q", c.id, nconn, clip(string(c.payload), 80), clip(string(got), 80)), cse)
+		}
+		r.Count("both_ends_upgrades", 1)
+	}
 }
 
 // c18Duplex: the peer echoes; the library side writes the stream in one goroutine and reads the echo in another.
@@ -647,6 +734,12 @@ func runC18(r *fw.Run) {
 				r.Count("coalesced_cases", 1)
 			}
 		}
+		for k := 0; k < r.Pick(20, 300) && r.ViolationCount() <= 24; k++ {
+			r.Journal(0, map[string]interface{}{"what": "both ends", "transport": tr, "round": k})
+			c18BothEnds(r, g, d, tr, k, 1+k%6, rng)
+			r.Done(0)
+			r.Case(fw.Hash("both", tr, fmt.Sprint(k)), true)
+		}
 		g.Stop()
 	}
 	srv, err := newRawServer(r.WorkDir)
@@ -705,7 +798,7 @@ func replayC18(r *fw.Run, raw json.RawMessage) {
 func init() {
 	fw.Register(&fw.Engine{
 		ID: "C18", Level: "exploration",
-		Rule: "(a) stream-integrity monitor on the library's context aware connection (white-box constructor) over an in-memory pipe, a unix socketpair and a TCP pair: the peer sends a known byte stream (frames and raw payload mixed, NULs anywhere, lengths 0..70000 around 4096/8192) under a segmentation schedule (one write, byte-wise, random cuts with pauses, at frame boundaries, at 4095/4096/4097...), the consumer interleaves ReadBytes(NUL) and Read(n), n in {1,3,5,7,16,4095,4096,4097,65536} in 11 patterns; after every read the concatenation of everything returned must be a prefix of what was sent, and equal to it at end of stream; plus the decisive shape 'frame and raw payload in one segment'. (b) end to end: a raw client sends an upgrade call and the payload in one segment (and in two) to a real Service whose handler then reads Call.Conn; a scripted server sends reply frame and payload in one segment (and in two) to a real Connection that called Upgrade and reads the returned object. The bytes read must be exactly the payload, starting immediately after the frame. non-trivial = stream longer than one byte; distinct by (stream hash, schedule, read pattern). Also: frames of 4090..70000 bytes with the payload in the same segment; duplex use (one goroutine writes a stream, another reads its echo on the same connection). A frame read must end at the first delimiter. Also frames whose length with the delimiter is a multiple of 4096 (4096 .. 65536, thorough to 1 MiB) or up to three bytes off, payload coalesced behind them.",
+		Rule: "(a) stream-integrity monitor on the library's context aware connection (white-box constructor) over an in-memory pipe, a unix socketpair and a TCP pair: the peer sends a known byte stream (frames and raw payload mixed, NULs anywhere, lengths 0..70000 around 4096/8192) under a segmentation schedule (one write, byte-wise, random cuts with pauses, at frame boundaries, at 4095/4096/4097...), the consumer interleaves ReadBytes(NUL) and Read(n), n in {1,3,5,7,16,4095,4096,4097,65536} in 11 patterns; after every read the concatenation of everything returned must be a prefix of what was sent, and equal to it at end of stream; plus the decisive shape 'frame and raw payload in one segment'. (b) end to end: a raw client sends an upgrade call and the payload in one segment (and in two) to a real Service whose handler then reads Call.Conn; a scripted server sends reply frame and payload in one segment (and in two) to a real Connection that called Upgrade and reads the returned object. The bytes read must be exactly the payload, starting immediately after the frame. non-trivial = stream longer than one byte; distinct by (stream hash, schedule, read pattern). Also: frames of 4090..70000 bytes with the payload in the same segment; duplex use (one goroutine writes a stream, another reads its echo on the same connection). A frame read must end at the first delimiter. Also frames whose length with the delimiter is a multiple of 4096 (4096 .. 65536, thorough to 1 MiB) or up to three bytes off, payload coalesced behind them. Real client Connections calling Upgrade against a real Service, 1-6 at a time, each client closing its Connection twice: every handler gets exactly its own client's payload.",
 		Assumptions: []string{"a second segment is sent after the payload so that a reader that skipped the coalesced bytes is seen to return later bytes instead"},
 		Run:         runC18, Replay: replayC18, CrashIsViolation: true, MinEvals: 100,
 		QuickTimeout: 15 * time.Minute, ThoroughTimeout: 60 * time.Minute,
